@@ -1,7 +1,9 @@
 """C27 extension of the shared scheduler driver (vp/sched/driver.py).
 
 * a new op kind ``x_reload`` (handled by wrapping ``driver.queue_command``): the op carries the text of a new
-  ``flow.cylc``; it is written over the run directory's ``flow.cylc`` and the REAL ``reload_workflow`` command is
+  ``flow.cylc`` (or, when the property module registered ``RENDER["fn"]``, that function produces it from the op's
+  arguments, the current pool and the recorded outputs: targeted definition changes; the definition used is recorded
+  as event ``reload_def``); it is written over the run directory's ``flow.cylc`` and the REAL ``reload_workflow`` command is
   validated and put on the scheduler's command queue, exactly as the network layer does;
 * ``TaskPool.reload`` is wrapped: immediately before the call the pool (in ``get_tasks()`` order), the old and
   new task name lists, the prerequisite keys each pooled instance gets from the new definition and the
@@ -9,6 +11,8 @@
   order it yields them) are recorded as event ``reload_before``; immediately after it returns the pool is
   recorded again as ``reload_after``;
 * every ``check_task_output`` call made during the reload is recorded with its result (``reload_check``);
+* the next 60 ``queue_if_ready`` calls after a reload are recorded with the task before/after and the value of
+  ``is_ready_to_run()`` (``reload_qir``);
 * the end of the reload command is recorded as ``reload_cmd_end`` (pool view), so the effect of
   ``compute_runahead`` / ``release_runahead_tasks`` after ``pool.reload`` can be told apart from the reload.
 
@@ -20,7 +24,8 @@ import json
 from pathlib import Path
 
 _DONE = {"patched": False, "installed": False}
-CUR = {"in_reload": False, "n_reload": 0}
+CUR = {"in_reload": False, "n_reload": 0, "watch": 0}
+RENDER = {"fn": None}     # callable(info, op args) -> (flow.cylc text, new definition as the property module describes it)
 
 
 def _key(k):
@@ -46,6 +51,16 @@ def db_rows(pool, pairs):
             rows.append([sorted(flows), sorted(msgs)])
         if rows:
             out.append([cyc, name, rows])
+    return out
+
+
+def all_outputs(pool):
+    """[[cycle, name, flows, messages] ...]: the whole task_outputs table"""
+    out = []
+    for cyc, name, flows, outputs in pool.workflow_db_mgr.pri_dao.connect().execute(
+            "SELECT cycle, name, flow_nums, outputs FROM task_outputs"):
+        o = json.loads(outputs)
+        out.append([int(cyc), name, sorted(json.loads(flows)), sorted(o.values() if isinstance(o, dict) else o)])
     return out
 
 
@@ -99,8 +114,22 @@ def patch_reload():
             CUR["in_reload"] = False
         driver.ev("reload_after", tasks=[driver.task_view(t) for t in self.get_tasks()],
                   children=[[driver.tid(t), sorted(t.graph_children)] for t in self.get_tasks()])
+        CUR["watch"] = 60       # record the next queue_if_ready calls (rest of this main-loop iteration)
         return r
     TaskPool.reload = n_reload
+
+    o_qir = TaskPool.queue_if_ready
+
+    def n_qir(self, itask):
+        if CUR["watch"] <= 0:
+            return o_qir(self, itask)
+        CUR["watch"] -= 1
+        before = driver.task_view(itask)
+        ready = bool(itask.is_ready_to_run())
+        r = o_qir(self, itask)
+        driver.ev("reload_qir", before=before, ready=ready, after=driver.task_view(itask))
+        return r
+    TaskPool.queue_if_ready = n_qir
 
     o_check = TaskPool.check_task_output
 
@@ -143,8 +172,19 @@ def install(driver):
 
     async def queue_command(schd, name, kwargs):
         if name == "x_reload":
-            Path(schd.workflow_run_dir, "flow.cylc").write_text(kwargs["flow"])
+            if RENDER["fn"] is not None:
+                # the property module decides the new definition, possibly looking at the pool / recorded outputs
+                info = {"tasks": [driver.task_view(t) for t in schd.pool.get_tasks()], "done": all_outputs(schd.pool)}
+                flow, newdef = RENDER["fn"](info, kwargs)
+            else:
+                flow, newdef = kwargs["flow"], kwargs.get("scn2")
+            driver.ev("reload_def", rkind=kwargs.get("kind"), scn2=newdef)
+            Path(schd.workflow_run_dir, "flow.cylc").write_text(flow)
             return await o_qc(schd, "reload_workflow", {})
         return await o_qc(schd, name, kwargs)
     driver.queue_command = queue_command
     driver.EXTRA_PATCHES.append(patch_reload)
+
+
+def reset_run():
+    CUR.update({"in_reload": False, "n_reload": 0, "watch": 0})
